@@ -334,7 +334,9 @@ namespace fastscapelib
                         auto factor_delta_exp = factor * std::pow(delta_k, m_slope_exp);
                         auto func = delta_k + factor_delta_exp - delta_0;
 
-                        if (func <= m_tolerance)
+                        // (the first iteration may overshoot the solution when
+                        // the slope exponent is lower than one)
+                        if (std::fabs(func) <= m_tolerance)
                         {
                             break;
                         }
